@@ -146,6 +146,18 @@ class Report(object):
 
     def finish(self, level="model_checking", explanation=None, checker_cmd=None, trusted_base=None, rule=None,
                distinct_nontrivial=None):
+        if os.environ.get("VERIF_REPLAY_CLAUSE"):
+            # replay mode: the check was re-run with the tier and seed of a recorded violation; report whether the
+            # same (clause, site) fails again on the current tree.  Evidence and replay files are left alone.
+            want = (os.environ["VERIF_REPLAY_CLAUSE"], os.environ.get("VERIF_REPLAY_SITE", ""))
+            again = [c for c in self.failures if (c[0], str(c[1])) == want]
+            if again:
+                print("VIOLATION property=%s replay=%s" % (self.pid, os.environ.get("VERIF_REPLAY_PATH", "")))
+                print("  clause=%s site=%s cases=%d (reproduced on the current tree)" % (want[0], want[1], len(again)))
+                print("  first case: %s" % json.dumps(again[0][2], default=str)[:600])
+                return 1
+            print("%s replay: clause=%s site=%s no longer fails (%d other failures)" % (self.pid, want[0], want[1], len(self.failures)))
+            return 0
         findings = [f for f in load_findings() if f.get("property") == self.pid]
         violations = []
         for clause, site, case in self.failures:
